@@ -356,6 +356,24 @@ def unmap_length_rule(chk, prog, loader, maps, asg, pairs):
                 ok = ref_name(strip(a[0], casts=True)) == pv and ref_name(strip(a[1], casts=True)) == lv and lv is not None
                 chk.require(ok, "UNMAP", "UNMAP/%s" % fn, loc_str(c),
                             "%s unmaps the loaded text with the length the loader reported" % fn, "munmap(%s, %s)" % (expr_str(a[0]), expr_str(a[1])))
+            # ... or hand both to a static helper that unmaps its parameters (clean-up extracted into a function)
+            elif c.get("kind") == "CallExpr" and callee_name(c) in prog.lib_functions() and \
+                    prog.lib_functions()[callee_name(c)].get("storageClass") == "static":
+                g = prog.lib_functions()[callee_name(c)]
+                gps = [p_["name"] for p_ in prog.params(g)]
+                for um in walk(prog.body(g)):
+                    if um.get("kind") == "CallExpr" and callee_name(um) == "munmap":
+                        ua = call_args(um)
+                        pi = gps.index(ref_name(strip(ua[0], casts=True))) if ref_name(strip(ua[0], casts=True)) in gps else None
+                        li = gps.index(ref_name(strip(ua[1], casts=True))) if ref_name(strip(ua[1], casts=True)) in gps else None
+                        ca = call_args(c)
+                        if pi is None or ref_name(strip(ca[pi], casts=True)) != pv:
+                            continue            # not the loaded text
+                        n += 1
+                        ok = li is not None and li < len(ca) and ref_name(strip(ca[li], casts=True)) == lv and lv is not None
+                        chk.require(ok, "UNMAP", "UNMAP/%s/%s" % (fn, callee_name(c)), loc_str(c),
+                                    "%s unmaps the loaded text (through %s) with the length the loader reported" % (fn, callee_name(c)),
+                                    "%s(...) unmaps (%s, %s)" % (callee_name(c), expr_str(ca[pi]), expr_str(ca[li]) if li is not None and li < len(ca) else expr_str(ua[1])))
         # the length variable is written by nobody but the loader
         if lv:
             for a in EFF.accesses(prog.body(f)):
